@@ -669,9 +669,19 @@ def _behaviour(cat: dict, dialect: str = "oas30"):
 
     raw = build_raw(cat, dialect)
 
+    documented = set(labels(cat))
+
     def behaviour(r):
         if r.path == "/openapi.json":
             return json_response(200, raw)
+        segs = r.path.split("/")
+        template = "/u/{id}" if len(segs) == 3 and segs[1] == "u" else r.path
+        if "%s %s" % (r.method.upper(), template) not in documented:
+            # like a real API: a method the document does not define for the path is not allowed, an unknown path is not found
+            allowed = sorted(l.split(" ", 1)[0] for l in documented if l.endswith(" " + template))
+            if allowed:
+                return json_response(405, {"detail": "method not allowed"}, [("Allow", ", ".join(allowed))])
+            return json_response(404, {"detail": "no such path"})
         if r.path == "/u" and r.method == "GET":
             return json_response(200, [{"id": 1}])
         return json_response(200, {"id": 1})
@@ -743,6 +753,7 @@ def run_cli(case: dict, cat: dict) -> dict:
                 "from schemathesis.cli import schemathesis; schemathesis()" % common.ROOT)
     with LoopbackServer(_behaviour(cat, case.get("dialect", "oas30"))) as server:
         proc = subprocess.run([PY, "-c", launcher, "run", server.base_url + "/openapi.json", "-n", "3", "--seed", "1", "--no-color", "-m", "all",
+                               "--experimental-coverage-unexpected-methods", "get,put,post,delete,options,patch,trace",
                                "--workers", "1"] + argv, stdout=subprocess.PIPE, stderr=subprocess.STDOUT, text=True, timeout=600,
                               env=dict(os.environ, COLUMNS="200"))
         vec, other = log_vector(cat, server.snapshot())
